@@ -25,7 +25,10 @@
 (*             wait mode and no force guard drop started => present  (C13) *)
 (*   ghost     slot guard drop not started at Append => value absent (C13) *)
 (*   reopen    a second open returns no guard                        (C13) *)
-(* A violated rule is named in `bad`; INVARIANT Ok.                        *)
+(* The first violated rule of a scenario is named in `bad` (with its line   *)
+(* in `badl`) and printed as <<"BAD", "[scenario, line, rule]">> when the next  *)
+(* Reset event is reached (the runner appends a final Reset), so one       *)
+(* linear pass judges every scenario of the file.                          *)
 (***************************************************************************)
 EXTENDS Naturals, Integers, Sequences, FiniteSets, TLC, Json, IOUtils
 
@@ -34,8 +37,8 @@ N == Len(Rec)
 Ix == 1..3
 SIx == 1..2
 
-VARIABLES l, ost, hst, gst, fst, sst, smode, ver, sval, app, ebeg, endedB, bad
-tvars == <<l, ost, hst, gst, fst, sst, smode, ver, sval, app, ebeg, endedB, bad>>
+VARIABLES l, ost, hst, gst, fst, sst, smode, ver, sval, app, ebeg, endedB, bad, badl, scen
+tvars == <<l, ost, hst, gst, fst, sst, smode, ver, sval, app, ebeg, endedB, bad, badl, scen>>
 
 Ev(name) == l <= N /\ Rec[l].ev = name
 Adv == l' = l + 1
@@ -47,7 +50,7 @@ Fresh ==
     /\ ver' = 0 /\ sval' = [i \in SIx |-> 0] /\ app' = 0 /\ ebeg' = FALSE /\ endedB' = {}
 
 TInit ==
-    /\ l = 1 /\ bad = "ok"
+    /\ l = 1 /\ bad = "ok" /\ badl = 0 /\ scen = 0
     /\ ost = "live"
     /\ hst = [i \in Ix |-> "none"] /\ gst = [i \in Ix |-> "none"] /\ fst = [i \in Ix |-> "none"]
     /\ sst = [i \in SIx |-> "none"] /\ smode = [i \in SIx |-> "discard"]
@@ -75,10 +78,13 @@ CondEnded == OwnersEnded /\ (GuardsEnded \/ ForceEnded)
 NoneDropping == /\ ost # "dropping" /\ \A i \in Ix : hst[i] # "dropping" /\ gst[i] # "dropping" /\ fst[i] # "dropping"
                 /\ \A s \in SIx : sst[s] # "dropping"
 
-Keep(vs) == UNCHANGED vs
-Flag(b) == bad' = IF bad = "ok" THEN b ELSE bad
+Keep(vs) == UNCHANGED <<vs, scen>>
+Flag(b) == /\ bad' = (IF bad = "ok" THEN b ELSE bad)
+           /\ badl' = (IF bad = "ok" /\ b # "ok" THEN l ELSE badl)
 
-TReset == Ev("Reset") /\ Adv /\ Fresh /\ bad' = bad
+TReset == /\ Ev("Reset") /\ Adv /\ Fresh
+          /\ bad' = "ok" /\ badl' = 0 /\ scen' = Rec[l].id
+          /\ (bad = "ok" \/ PrintT(<<"BAD", ToJson(<<scen, badl, bad>>)>>))
 
 TNew ==
     /\ Ev("New") /\ Adv
@@ -90,12 +96,12 @@ TNew ==
         /\ ost' = IF k = "h" THEN "handles" ELSE ost
         /\ sst' = IF k = "s" THEN [sst EXCEPT ![i] = "live"] ELSE sst
         /\ smode' = IF k = "s" THEN [smode EXCEPT ![i] = Rec[l].mode] ELSE smode
-    /\ Keep(<<ver, sval, app, ebeg, endedB, bad>>)
+    /\ Keep(<<ver, sval, app, ebeg, endedB, bad, badl>>)
 
 TMut == Ev("Mut") /\ Adv /\ ver' = ver + 1
-        /\ Keep(<<ost, hst, gst, fst, sst, smode, sval, app, ebeg, endedB, bad>>)
+        /\ Keep(<<ost, hst, gst, fst, sst, smode, sval, app, ebeg, endedB, bad, badl>>)
 TSMut == Ev("SMut") /\ Adv /\ sval' = [sval EXCEPT ![Rec[l].i] = @ + 1]
-         /\ Keep(<<ost, hst, gst, fst, sst, smode, ver, app, ebeg, endedB, bad>>)
+         /\ Keep(<<ost, hst, gst, fst, sst, smode, ver, app, ebeg, endedB, bad, badl>>)
 
 SetSt(k, i, v) ==
     /\ ost' = IF k = "o" THEN v ELSE ost
@@ -105,9 +111,9 @@ SetSt(k, i, v) ==
     /\ sst' = IF k = "s" THEN [sst EXCEPT ![i] = v] ELSE sst
 
 TDropStart == Ev("DropStart") /\ Adv /\ SetSt(Rec[l].k, Rec[l].i, "dropping")
-              /\ Keep(<<smode, ver, sval, app, ebeg, endedB, bad>>)
+              /\ Keep(<<smode, ver, sval, app, ebeg, endedB, bad, badl>>)
 TDropEnd == Ev("DropEnd") /\ Adv /\ SetSt(Rec[l].k, Rec[l].i, "dropped")
-            /\ Keep(<<smode, ver, sval, app, ebeg, endedB, bad>>)
+            /\ Keep(<<smode, ver, sval, app, ebeg, endedB, bad, badl>>)
 
 TEmitBegin ==
     /\ Ev("EmitBegin") /\ Adv
@@ -150,13 +156,16 @@ TReOpen ==
     /\ Flag(IF Rec[l].some = 1 THEN "reopen: a second open of the slot returned a guard" ELSE "ok")
     /\ Keep(<<ost, hst, gst, fst, sst, smode, ver, sval, app, ebeg, endedB>>)
 
-TWaited == Ev("Waited") /\ Adv /\ Keep(<<ost, hst, gst, fst, sst, smode, ver, sval, app, ebeg, endedB, bad>>)
+TWaited == Ev("Waited") /\ Adv /\ Keep(<<ost, hst, gst, fst, sst, smode, ver, sval, app, ebeg, endedB, bad, badl>>)
+
+TWaitTimeout == Ev("WaitTimeout") /\ Adv /\ Flag("lost: wait_for_data did not complete within its budget")
+                /\ Keep(<<ost, hst, gst, fst, sst, smode, ver, sval, app, ebeg, endedB>>)
 
 TPanic == Ev("Panic") /\ Adv /\ Flag("panic: the code under test panicked")
           /\ Keep(<<ost, hst, gst, fst, sst, smode, ver, sval, app, ebeg, endedB>>)
 
 TNext_ == TReset \/ TNew \/ TMut \/ TSMut \/ TDropStart \/ TDropEnd \/ TEmitBegin \/ TAppend \/ TQuiesce
-          \/ TReOpen \/ TWaited \/ TPanic
+          \/ TReOpen \/ TWaited \/ TWaitTimeout \/ TPanic
 
 TSpec == TInit /\ [][TNext_]_tvars
 
